@@ -324,4 +324,20 @@ def run(tier):
     okx = len(ef) == 1 and list(ef)[0][0] == 'none'
     rep.ob("C11.exit|ends-loop-only", okx, "the EndFile mode just ends the line loop of the current file (skip returns None, parse_iter returns Ok)" if okx else
            "EndFile mode does %s" % ef)
+    # a .include inside a macro body is looked for like any other: pass 0, which re-parses the bodies, must know the directories
+    kb = "builder::pass0::build_pass_0"
+    if kb in P.body:
+        b0 = P.body[kb]
+        pf = [f["name"] for f in P.lib.adts["builder::pass0::Pass0Context"]["variants"][0]["fields"]]
+        fresh = None
+        for bl in b0["blocks"]:
+            for st in bl["stmts"]:
+                if st["k"] == "assign" and st["rv"]["k"] == "agg" and st["rv"]["kind"].get("path") == "builder::pass0::Pass0Context":
+                    locs, consts, calls, places = MU.backward_slice(b0, [st["rv"]["ops"][pf.index("include_paths")]])
+                    from_params = any(1 <= l <= b0["arg_count"] for l in locs)
+                    fresh = (not from_params) and any(MU.callee_names(c)[1].endswith(("BTreeSet::<T>::new", "BTreeSet::<T, A>::new")) or "btreeset" in MU.callee_names(c)[1] for c in calls) or (not from_params)
+        if fresh is not None:
+            rep.ob("C11.search|macro-body|directories", not fresh,
+                   "pass 0 re-parses macro bodies with the directories the parse knew" if not fresh else
+                   "pass 0 re-parses macro bodies with an empty directory set and no current file: `.include \"defaults.inc\"` inside a macro body is found only relative to the working directory, not next to the file that holds the macro, nor in caller-supplied or .includepath directories")
     return rep
